@@ -12,6 +12,7 @@ EXPLANATION = (
     "(2) in WriteTxn::commit nothing outside the log (page file, node table) is mutated before CommitTx is appended and fsynced; "
     "(3) replay has the idempotence skip for CreateNode and an explicit arm for every WalRecord variant. "
     "It does not decide the content of the recovered prefix."
+    " C02.6: a log scanner mutates its list of committed transactions only in the CommitTx arm and only by appending; elsewhere it may touch nothing but the pending buffer."
 )
 
 REPLAY = "nervusdb_storage::engine::replay_graph_transactions"
@@ -24,6 +25,7 @@ def run(ctx):
     ctx.rule("C02.1", "WAL appends are bracketed BeginTx .. CommitTx under one uninterrupted WAL guard")
     ctx.rule("C02.2", "commit mutates pages / node table only after CommitTx is appended and fsynced")
     ctx.rule("C02.3", "replay keeps the CreateNode idempotence skip and has an explicit arm per WalRecord variant")
+    scanner_effects_rule(ctx)
     ctx.rule("C02.4", "log scanners discard the records of an unfinished transaction when the next BeginTx arrives")
 
     # ---- clause 1 ---------------------------------------------------------
@@ -162,6 +164,55 @@ def scanner_rule(ctx, rid):
                    "commit): those records are replayed as part of the next committed transaction — recovery applies a non-prefix", sb.file,
                    sample={"scanner": i})
     ctx.floor(rid, "log scanners that group records into transactions", scanners, 2)
+
+
+def scanner_effects_rule(ctx, rid="C02.6"):
+    """a log record takes effect only when its transaction commits: outside the CommitTx arm a scanner touches nothing but its pending buffer"""
+    F = ctx.facts
+    ctx.rule(rid, "a log scanner that groups records into transactions mutates its output (the list of committed transactions) only in the CommitTx arm, and "
+             "only by appending: a record of a transaction that never commits must have no effect on what recovery returns")
+    adt = ctx.adt(M.WALRECORD)
+    names = [v["name"] for v in adt["variants"]]
+    n = 0
+    for i, sb in sorted(F.bodies.items()):
+        if not i.startswith("nervusdb_storage::wal::") or sb.kind == "closure" or "::tests::" in i:
+            continue
+        sw = tables.enum_switch(sb, M.WALRECORD, F)
+        if not sw or names.index("BeginTx") not in sw[1] or names.index("CommitTx") not in sw[1]:
+            continue
+        pend = {peel_refs(sb, op_local(c.args[0])) for c in sb.calls()
+                if c.name.endswith("Vec::<T, A>::push") and c.args and M.WALRECORD in sb.local_ty(peel_refs(sb, op_local(c.args[0])) or 0)}
+        if not pend:
+            continue
+        commit_region = set(tables.dominated_region(sb, sw[1][names.index("CommitTx")], sw[0]))
+        # the output: every other local collection (Vec / map) of the function that is mutated somewhere
+        bodies = [sb] + list(F.closures_of(i))
+        for x in bodies:
+            for c in x.calls():
+                if not c.args:
+                    continue
+                a0 = op_local(c.args[0])
+                if a0 is None:
+                    continue
+                sd = x.single_def(a0)
+                mutable = bool(sd and sd[2] == "assign" and sd[3][2][0] == "ref" and sd[3][2][1])
+                if not mutable:
+                    continue
+                root = peel_refs(x, a0)
+                ty = x.local_ty(root) if root is not None else ""
+                if x is sb and root in pend:
+                    continue
+                if "CommittedTx" not in ty:
+                    continue
+                n += 1
+                meth = c.name.split("::")[-1]
+                in_commit = x is sb and c.bb in commit_region
+                ok = in_commit and meth in ("push", "extend", "push_back")
+                ctx.instance(rid, "%s: %s on the committed-transaction list (%s)" % (i.split("::")[-1], meth, "CommitTx arm" if in_commit else "outside the CommitTx arm"))
+                ctx.oblige(ok, rid, "%s:%s:%s-%s" % (rid, i.split("::")[-1], meth, "in-commit" if in_commit else "outside-commit"),
+                           "the scanner edits the list of committed transactions with `%s` %s: a record of a transaction that may never commit "
+                           "(a crash before its CommitTx) changes what recovery replays" % (meth, "in the CommitTx arm" if in_commit else "outside the CommitTx arm"), c.loc())
+    ctx.floor(rid, "mutations of the committed-transaction list", n, 1)
 
 
 def _bitmap_flush_rule(ctx, rid="C02.5"):
